@@ -152,6 +152,23 @@ def r_pos_everyrow(ctx, rep):
     if nxt is None:
         rep.anchor_missing("R-POS", "Iterator::next for RangeDeserializer")
         return
+    # rows are taken in `next` only: any other method that advances the underlying `Rows` iterator (an `nth` / `advance_by`
+    # / `fold` fast path) steps over rows the position counter never hears of
+    k2 = "de::RangeDeserializer|R-POS|row|rows-only-in-next"
+    others = []
+    for f in F.user_fns():
+        if f is nxt or f.file != "src/de.rs" or not (f.impl_self or "").endswith("RangeDeserializer"):
+            continue
+        if not (f.params and f.params[0].get("k") == "Binding" and f.params[0].get("name") == "self"):
+            continue    # the constructor takes the header row and sets the position to match
+        for c in walk_k(f.body, "MethodCall"):
+            rty = (peel(c["recv"]).get("ty") or "") if isinstance(peel(c["recv"]), dict) else ""
+            if "Rows<" in rty and c.get("name") in ("next", "nth", "skip", "advance_by", "next_back", "nth_back", "last", "fold", "try_fold", "for_each", "count", "step_by", "skip_while", "find", "position", "by_ref", "take"):
+                others.append((f, c))
+    if others:
+        rep.violation("R-POS", k2, loc(others[0][1]), "%s advances the row iterator with `%s` outside `next`: rows stepped over there do not advance current_pos, so every later CellError reports a row that is too small" % (others[0][0].name, others[0][1]["name"]))
+    else:
+        rep.holds("R-POS", k2, loc(nxt.raw), "only `next` takes rows from the underlying iterator")
     key = "%s|R-POS|row|every-row" % nxt.name
     order = {}
     ancs = {}
@@ -1033,3 +1050,380 @@ def r_recsize(ctx, rep):
         rep.violation("R-RECSIZE", key, loc(errs[0]), "fill_buffer rejects a record by itself (an Err built at %s): record sizes up to 2^28 - 1 are legal, long strings need more than 64 KiB" % loc(errs[0]))
     else:
         rep.holds("R-RECSIZE", key, loc(fn.raw), "only read errors are propagated")
+
+
+# ----------------------------------------------------------------------------------------------
+# rules added after the ninth seeding round (third batch of indirect breaks)
+
+
+def r_fmtvalue(ctx, rep):
+    """C02 / C01 / C03: the number a cell holds is handed on unchanged: in formats::format_excel_{f64,i64}_ref the
+    DataRef::Float / DataRef::Int of the non-date arm, and the value given to ExcelDateTime::new in the date arms, are
+    the `value` parameter itself (no rounding, no re-parsing), and no arm is guarded by the value."""
+    F = ctx.facts("default")
+    n = 0
+    for name in ("formats::format_excel_f64_ref", "formats::format_excel_i64_ref"):
+        fn = F.fn(name)
+        if fn is None:
+            rep.anchor_missing("R-FMTVALUE", name)
+            continue
+        n += 1
+        key = "%s|R-FMTVALUE" % name
+        vlid = fn.params[0].get("lid") if fn.params and fn.params[0].get("k") == "Binding" else None
+        imap = inl_params(fn.body)
+        bad = []
+        for c in walk_k(fn.body, "Call"):
+            cal = callee(c) or ""
+            if cal.endswith("DataRef::Float") or cal.endswith("DataRef::Int") or cal.endswith("ExcelDateTime::new"):
+                a0 = c["args"][0] if c.get("args") else None
+                e = peel(a0) if a0 is not None else None
+                while isinstance(e, dict) and e.get("k") == "Cast":
+                    e = peel(e["e"])
+                pl = path_local(e) if isinstance(e, dict) and e.get("k") == "Path" else None
+                while pl and pl[1] in imap:
+                    e = peel(imap[pl[1]])
+                    while isinstance(e, dict) and e.get("k") == "Cast":
+                        e = peel(e["e"])
+                    pl = path_local(e) if isinstance(e, dict) and e.get("k") == "Path" else None
+                if not pl or pl[1] != vlid:
+                    bad.append((c, "the value handed to %s is not the `value` parameter itself" % cal.rsplit("::", 2)[-2:]))
+        for m in walk_k(fn.body, "Match"):
+            for a in m.get("arms", []):
+                if a.get("guard") is not None and vlid in used_lids(a["guard"], imap):
+                    bad.append((a, "an arm is guarded by the value (the kind of a cell is decided by its style alone)"))
+        if bad:
+            rep.violation("R-FMTVALUE", key, loc(bad[0][0]), "%s: %s: numbers would not read back bit-exactly, or date-styled cells would change kind with their value" % (name, bad[0][1]))
+        else:
+            rep.holds("R-FMTVALUE", key, loc(fn.raw), "the value parameter reaches Float / Int / ExcelDateTime::new unchanged and guards no arm")
+
+
+def r_cfbroot(ctx, rep):
+    """C06 / C13: `dirs[0]` (the root entry) is only touched after the empty-directory test returned EmptyRootDir."""
+    F = ctx.facts("default")
+    fn = F.fn("cfb::Cfb::new")
+    key = "cfb::Cfb::new|R-CFBROOT"
+    if fn is None:
+        rep.anchor_missing("R-CFBROOT", "cfb::Cfb::new")
+        return
+    order = {id(x): i for i, x in enumerate(walk(fn.body))}
+    guards = []
+    for i_, anc in walk_anc(fn.body):
+        if i_.get("k") == "If" and any(c.get("name") == "is_empty" for c in walk_k(i_["cond"], "MethodCall")) and any((path_def(x) or "").endswith("EmptyRootDir") for x in walk_k(i_["then"], "Path")):
+            guards.append(i_)
+    for m in walk_k(fn.body, "Match"):
+        # `let Some(root) = directories.first() else { return Err(EmptyRootDir) }`
+        if any(c.get("name") == "first" for c in walk_k(m["scrut"], "MethodCall")) and any((path_def(x) or "").endswith("EmptyRootDir") for a in m.get("arms", []) for x in walk_k(a["body"], "Path")):
+            guards.append(m)
+    idx0 = [ix for ix in walk_k(fn.body, "Index") if lit_value(ix.get("idx")) == 0 and "Directory" in (peel(ix["e"]).get("ty") or "")]
+    if not guards:
+        rep.violation("R-CFBROOT", key, loc(fn.raw), "Cfb::new does not reject an empty directory (EmptyRootDir) before using the root entry")
+    elif any(order[id(ix)] < min(order[id(g)] for g in guards) for ix in idx0):
+        first = min(idx0, key=lambda ix: order[id(ix)])
+        rep.violation("R-CFBROOT", key, loc(first), "the root directory entry (`dirs[0]`) is used before the empty-directory test: a header whose directory chain is empty but which declares a mini FAT panics (index out of bounds) instead of returning EmptyRootDir")
+    else:
+        rep.holds("R-CFBROOT", key, loc(guards[0]), "%d use(s) of the root entry, all after the EmptyRootDir test" % len(idx0))
+
+
+def r_from_payload(ctx, rep):
+    """C07 / C08 / C10: `Data::from(DataRef)` (the owned API is the borrowed one plus this conversion) keeps every
+    payload as it is: each arm hands its binding on unchanged or through an owning conversion (into / to_owned / ..), and
+    no arm is guarded."""
+    F = ctx.facts("default")
+    fn = next((f for f in F.fns if f.name.endswith("::from") and (f.impl_self or "").endswith("datatype::Data") and "DataRef" in (f.raw.get("sig") or "")), None)
+    if fn is None:
+        fn = next((f for f in F.fns if f.name.startswith("<datatype::Data as core::convert::From") and "DataRef" in json_sig(f)), None)
+    key = "datatype::Data::from(DataRef)|R-FROM-PAYLOAD"
+    if fn is None:
+        rep.anchor_missing("R-FROM-PAYLOAD", "impl From<DataRef> for Data")
+        return
+    OWN = ("into", "to_owned", "to_string", "clone", "into_owned", "from")
+    bad, n = [], 0
+    for m in walk_k(fn.body, "Match"):
+        for a in m.get("arms", []):
+            binds = {lid for _, lid in pat_bindings(a["pat"])}
+            if not binds and not (pat_variant(a["pat"]) or "").startswith("datatype::DataRef"):
+                continue
+            n += 1
+            if a.get("guard") is not None and not a.get("guard_from_body"):
+                bad.append((a, "the arm for %s is guarded by its payload" % (pat_variant(a["pat"]) or "?").rsplit("::", 1)[-1]))
+                continue
+            for c in walk_k(a["body"], "MethodCall"):
+                r = peel(c["recv"])
+                if isinstance(r, dict) and r.get("k") == "Path" and path_local(r) and path_local(r)[1] in binds and c["name"] not in OWN:
+                    bad.append((c, "the payload of %s goes through `%s` on its way" % ((pat_variant(a["pat"]) or "?").rsplit("::", 1)[-1], c["name"])))
+    if n < 8:
+        rep.anchor_missing("R-FROM-PAYLOAD", "the arms of Data::from(DataRef) (found %d)" % n)
+    elif bad:
+        rep.violation("R-FROM-PAYLOAD", key, loc(bad[0][0]), "Data::from(DataRef): %s: worksheet_range and worksheet_range_ref would disagree on that cell" % bad[0][1])
+    else:
+        rep.holds("R-FROM-PAYLOAD", key, loc(fn.raw), "%d arms, payloads unchanged, no guards" % n)
+
+
+def json_sig(f):
+    return (f.raw.get("sig") or "") + " " + " ".join((p.get("ty") or "") for p in f.params)
+
+
+def r_globals_exit(ctx, rep):
+    """C10 / C02 / C16: the workbook-globals loop of xls::parse_workbook collects records by type in whatever order the
+    writer chose (FORMAT / XF / DATE1904 may follow the SST): it ends at the EOF record (0x000A) only."""
+    F = ctx.facts("default")
+    fn = F.fn("xls::Xls::parse_workbook")
+    key = "xls::Xls::parse_workbook|R-GLOBALS-EXIT"
+    if fn is None:
+        rep.anchor_missing("R-GLOBALS-EXIT", "xls::Xls::parse_workbook")
+        return
+    disp = None
+    for m in walk_k(fn.body, "Match"):
+        lits = {v for a in m.get("arms", []) for v in _arm_ints(a)}
+        if {0x0085, 0x00FC, 0x000A} <= lits:
+            disp = m
+    if disp is None:
+        rep.anchor_missing("R-GLOBALS-EXIT", "the workbook-globals dispatch (arms 0x0085, 0x00FC, 0x000A)")
+        return
+    bad = []
+    for a in disp["arms"]:
+        if 0x000A in _arm_ints(a):
+            continue
+        for b, anc in walk_anc(a["body"]):
+            if b.get("k") == "Break" and not b.get("inl_ret") and not any(x.get("k") == "Loop" for x in anc):
+                bad.append((a, b))
+    if bad:
+        rep.violation("R-GLOBALS-EXIT", key, loc(bad[0][1]), "the arm for record 0x%04X leaves the workbook-globals loop: FORMAT / XF / DATE1904 / Lbl records that follow it are never seen (every date comes back as a number)" % (_arm_ints(bad[0][0]) or [0])[0])
+    else:
+        rep.holds("R-GLOBALS-EXIT", key, loc(disp), "only the EOF arm leaves the loop")
+
+
+def r_untyped_parse(ctx, rep):
+    """C11 / C01: an xlsx cell without a `t` attribute is a number when its text parses as one (Excel writes exponent
+    notation for small serials): in read_v's untyped arm the text reaches `parse::<f64>()` unconditionally."""
+    F = ctx.facts("default")
+    fn = F.fn("xlsx::cells_reader::read_v")
+    key = "xlsx::cells_reader::read_v|R-UNTYPED-PARSE"
+    if fn is None:
+        rep.anchor_missing("R-UNTYPED-PARSE", "xlsx::cells_reader::read_v")
+        return
+    from .r_tables import pat_keys
+    hit = None
+    for m in walk_k(fn.body, "Match"):
+        keys = {k for a in m.get("arms", []) for k in pat_keys(a["pat"])[0]}
+        if ("str", "s") in keys or ("str", "b") in keys:
+            for a in m["arms"]:
+                ks, ca = pat_keys(a["pat"])
+                if ("path", "None") in ks:
+                    hit = a
+    if hit is None:
+        rep.anchor_missing("R-UNTYPED-PARSE", "the `None` (no t attribute) arm of read_v")
+        return
+    parses = [(c, anc) for c, anc in walk_anc(hit["body"]) if c.get("k") == "MethodCall" and c.get("name") == "parse"]
+    if not parses:
+        rep.violation("R-UNTYPED-PARSE", key, loc(hit), "the untyped arm of read_v does not try to parse the text as a number")
+        return
+    c, anc = parses[0]
+    cond = [a for a in anc if a.get("k") == "If" or (a.get("k") == "Match" and a.get("src") not in ("TryDesugar",) and not any(x is c for x in walk(a["scrut"])))]
+    if cond or (hit.get("guard") is not None):
+        rep.violation("R-UNTYPED-PARSE", key, loc(cond[0] if cond else hit), "the untyped arm of read_v parses the text as a number only under a condition: texts the filter does not expect (exponent notation for serials below 1e-4) come back as strings")
+    else:
+        rep.holds("R-UNTYPED-PARSE", key, loc(c), "the text goes to parse() unconditionally")
+
+
+def r_codepage_default(ctx, rep):
+    """C14 / C16 / C02: until a CodePage record says otherwise a BIFF8 stream is UTF-16 (code page 1200): strings with
+    an explicit flag byte are widened to UTF-16 and sent through the workbook decoder, which must then be UTF-16."""
+    F = ctx.facts("default")
+    fn = F.fn("xls::Xls::parse_workbook")
+    key = "xls::Xls::parse_workbook|R-CODEPAGE-DEFAULT"
+    if fn is None:
+        rep.anchor_missing("R-CODEPAGE-DEFAULT", "xls::Xls::parse_workbook")
+        return
+    from .kit import const_value
+    cands = [c for c in walk_k(fn.body, "MethodCall") if c.get("name") in ("unwrap_or", "unwrap_or_else", "map_or") and any(f.get("k") == "Field" and f.get("name") == "force_codepage" for f in walk(c["recv"]))]
+    if not cands:
+        rep.anchor_missing("R-CODEPAGE-DEFAULT", "the default of options.force_codepage in parse_workbook")
+        return
+    v = const_value(F, cands[0]["args"][0]) if cands[0].get("args") else None
+    if v == 1200:
+        rep.holds("R-CODEPAGE-DEFAULT", key, loc(cands[0]), "default code page 1200 (UTF-16LE)")
+    else:
+        rep.violation("R-CODEPAGE-DEFAULT", key, loc(cands[0]), "the code page assumed before a CodePage record is %r, not 1200: BIFF8 strings (widened to UTF-16 and decoded with the workbook encoding) come out with a NUL after every character in files without that record" % v)
+
+
+def r_sheetname_asis(ctx, rep):
+    """C17 / C16: a sheet name is a key (merged regions, ranges and formulas are stored under it): the BoundSheet8 name
+    is taken as written -- NULs removed, nothing trimmed, no case folding."""
+    F = ctx.facts("default")
+    fn = F.fn("xls::parse_sheet_metadata")
+    key = "xls::parse_sheet_metadata|R-SHEETNAME"
+    if fn is None:
+        rep.anchor_missing("R-SHEETNAME", "xls::parse_sheet_metadata")
+        return
+    bad = [c for c in walk_k(fn.body, "MethodCall") if c.get("name") in ("trim", "trim_start", "trim_end", "trim_matches", "trim_end_matches", "trim_start_matches", "to_lowercase", "to_uppercase", "to_ascii_lowercase", "to_ascii_uppercase", "truncate")]
+    if bad:
+        rep.violation("R-SHEETNAME", key, loc(bad[0]), "parse_sheet_metadata changes the sheet name (`%s`): two sheets whose names differ only in what is removed collide in the map the sheet data is stored in" % bad[0]["name"])
+    else:
+        rep.holds("R-SHEETNAME", key, loc(fn.raw), "the name is kept as written")
+
+
+def r_hasdir(ctx, rep):
+    """C18 / C20 / C13: `Cfb::has_directory(name)` answers "is there an entry with this name" -- storages (size 0) and
+    streams alike: the predicate compares names only."""
+    F = ctx.facts("default")
+    fn = F.fn("cfb::Cfb::has_directory")
+    key = "cfb::Cfb::has_directory|R-HASDIR"
+    if fn is None:
+        rep.anchor_missing("R-HASDIR", "cfb::Cfb::has_directory")
+        return
+    fields = {f.get("name") for f in walk_k(fn.body, "Field")} - {"directories", "name"}
+    ops = [b for b in walk_k(fn.body, "Binary") if b.get("op") in ("&&", "||", "<", ">", "<=", ">=", "!=")]
+    if fields or ops:
+        rep.violation("R-HASDIR", key, loc(fn.raw), "has_directory looks at more than the entry name (%s): storages such as `_VBA_PROJECT_CUR` have size 0, so the xls reader would stop finding its VBA project" % ", ".join(sorted(x for x in fields if x) or ["extra conditions"]))
+    else:
+        rep.holds("R-HASDIR", key, loc(fn.raw), "name comparison only")
+
+
+# ----------------------------------------------------------------------------------------------
+# round 10 (tolerance / error handling / state)
+
+_READER_FILES = ("src/xlsx/mod.rs", "src/xlsx/cells_reader.rs", "src/xlsb/mod.rs", "src/xlsb/cells_reader.rs", "src/xls.rs", "src/ods.rs")
+
+
+def _stringlike(ty):
+    ty = (ty or "").replace("&mut ", "").replace("&", "").replace("'static ", "")
+    return ty in ("str", "alloc::string::String") or ty.startswith("alloc::borrow::Cow<") and "str" in ty
+
+
+def _trimmed(e, tainted):
+    """is the *value* of e a trimmed string (value positions only: the condition of an `if` does not count)?"""
+    e = unwrap(e)
+    if not isinstance(e, dict):
+        return False
+    k = e.get("k")
+    if k == "MethodCall":
+        if e["name"].startswith("trim") and _stringlike((peel(e["recv"]) or {}).get("ty")) or e["name"].startswith("trim_ascii"):
+            return True
+        if _stringlike(e.get("ty")) or e["name"] in ("map", "unwrap_or", "unwrap_or_default", "unwrap", "expect", "ok", "and_then"):
+            return _trimmed(e["recv"], tainted) or any(_trimmed(a, tainted) for a in e.get("args", []) if isinstance(a, dict) and a.get("k") == "Closure")
+        return False
+    if k == "Closure":
+        return _trimmed(e.get("body"), tainted)
+    if k == "Path":
+        pl = path_local(e)
+        return bool(pl and pl[1] in tainted)
+    if k == "If":
+        return _trimmed(e["then"], tainted) or (e.get("els") is not None and _trimmed(e["els"], tainted))
+    if k == "Match":
+        return any(_trimmed(a["body"], tainted) for a in e["arms"]) if e.get("src") != "TryDesugar" else _trimmed(e["scrut"], tainted)
+    if k == "BlockExpr":
+        return e["block"].get("expr") is not None and _trimmed(e["block"]["expr"], tainted)
+    if k == "Call":
+        cal = callee(e) or ""
+        if cal.startswith("core::") or cal.startswith("alloc::") or cal.startswith("std::"):
+            return any(_trimmed(a, tainted) for a in e.get("args", []))
+        return False
+    if k in ("AddrOf", "Deref", "Cast", "Unary"):
+        return _trimmed(e.get("e"), tainted)
+    return False
+
+
+def r_notrim(ctx, rep):
+    """C01 / C19 / C04: text is content.  In the reader modules no string that went through `trim*` is stored: it never
+    becomes the payload of a crate type (DataRef::String(v), Cell { val, .. }), is never appended to or assigned over a
+    value under construction, and is never what a string-returning function returns.  (`v.trim().parse::<f64>()` is
+    fine: the parsed number is not a trimmed string.)  The matcher is kept honest by src/de.rs, whose header look-up
+    trims on purpose: it must be seen there on every run."""
+    F = ctx.facts("default")
+    seen_de = 0
+    for fn in F.user_fns():
+        if fn.file == "src/de.rs":
+            seen_de += sum(1 for c in walk_k(fn.body, "MethodCall") if c["name"].startswith("trim") and _stringlike((peel(c["recv"]) or {}).get("ty")))
+    if seen_de == 0:
+        rep.anchor_missing("R-NOTRIM", "the deliberate `trim()` of the header look-up in src/de.rs (the matcher's positive example)")
+    n = 0
+    for fn in F.user_fns():
+        if fn.file not in _READER_FILES:
+            continue
+        n += 1
+        key = "%s|R-NOTRIM" % fn.name
+        tainted = set()
+        changed = True
+        while changed:
+            changed = False
+            for x in walk(fn.body):
+                if x.get("k") == "Let" and x.get("init") is not None and _trimmed(x["init"], tainted):
+                    for _, lid in pat_bindings(x["pat"]):
+                        if lid not in tainted:
+                            tainted.add(lid)
+                            changed = True
+                elif x.get("k") == "Assign" and _trimmed(x["r"], tainted):
+                    pl = path_local(peel(x["l"])) if peel(x["l"]).get("k") == "Path" else None
+                    if pl and pl[1] not in tainted:
+                        tainted.add(pl[1])
+                        changed = True
+        bad = None
+        for x in walk(fn.body):
+            k = x.get("k")
+            if k == "Call":
+                cal = callee(x) or ""
+                r = unwrap(x["f"]).get("res", {}) if isinstance(unwrap(x["f"]), dict) else {}
+                if r.get("ctor_of") and not (cal.startswith("core::") or cal.startswith("alloc::") or cal.startswith("std::")) and any(_trimmed(a, tainted) for a in x.get("args", [])):
+                    bad = (x, "a trimmed string becomes the payload of %s" % cal.rsplit("::", 2)[-2:])
+            elif k == "Struct" and not (norm(x["res"].get("ctor_of") or x["res"].get("def")) or "").startswith(("core::", "alloc::", "std::")):
+                if any("e" in f and _trimmed(f["e"], tainted) for f in x.get("fields", [])):
+                    bad = (x, "a trimmed string is stored in a field of %s" % (norm(x["res"].get("ctor_of") or x["res"].get("def")) or "?"))
+            elif k == "MethodCall" and x["name"] in ("push_str", "push", "insert", "insert_str", "extend", "extend_from_slice") and any(_trimmed(a, tainted) for a in x.get("args", [])):
+                bad = (x, "a trimmed string is appended by `%s`" % x["name"])
+            elif k == "Assign" and _trimmed(x["r"], tainted) and field_chain(x["l"]) and field_chain(x["l"])[1]:
+                bad = (x, "a trimmed string is assigned to a field")
+            elif k == "Ret" and x.get("e") is not None and _trimmed(x["e"], tainted):
+                bad = (x, "a trimmed string is returned")
+            if bad:
+                break
+        if bad is None and "String" in (fn.raw.get("sig") or "").rsplit("->", 1)[-1]:
+            b = unwrap(fn.body)
+            if isinstance(b, dict) and _trimmed(b, tainted):
+                bad = (fn.raw, "a trimmed string is returned")
+        if bad:
+            rep.violation("R-NOTRIM", key, loc(bad[0]), "%s: %s: leading / trailing blanks of a cell's text (a formula result \"  padded  \", a single blank) are part of the value and would be lost" % (fn.name, bad[1]))
+        else:
+            rep.holds("R-NOTRIM", key, loc(fn.raw), "no trimmed string is stored, appended or returned")
+    rep.floor("R-NOTRIM", 110, "functions of the reader modules")
+
+
+_CFB_REORDER = ("sort", "sort_by", "sort_by_key", "sort_unstable", "sort_unstable_by", "sort_unstable_by_key", "sort_by_cached_key", "dedup", "dedup_by",
+                "dedup_by_key", "reverse", "rev", "rotate_left", "rotate_right", "swap", "swap_remove", "retain", "retain_mut", "take_while", "skip_while",
+                "skip", "step_by", "take", "remove", "insert", "drain", "split_off")
+
+
+def r_cfborder(ctx, rep):
+    """C13: the DIFAT lists the FAT sectors in the order in which they make up the FAT, wherever they lie in the file, and
+    free entries may sit between used ones.  In Cfb::new the `difat` and `fats` vectors are therefore only appended to
+    (plus the `pop` that takes the next-DIFAT pointer off the end) and walked in full through `filter`: nothing sorts,
+    de-duplicates, reverses, cuts or skips them."""
+    F = ctx.facts("default")
+    fn = F.fn("cfb::Cfb::new")
+    key = "cfb::Cfb::new|R-CFBORDER"
+    if fn is None:
+        rep.anchor_missing("R-CFBORDER", "cfb::Cfb::new")
+        return
+    lids = {}
+    for x in walk(fn.body):
+        if x.get("k") == "Let":
+            for nm, lid in pat_bindings(x["pat"]):
+                if nm in ("difat", "fats", "mini_fats") or (x.get("init") is not None and "Vec<u32>" in ((unwrap(x["init"]) or {}).get("ty") or "").replace("alloc::vec::", "")):
+                    lids[lid] = nm
+    if not any(v == "difat" for v in lids.values()) or len(lids) < 2:
+        rep.anchor_missing("R-CFBORDER", "the difat / fats vectors of cfb::Cfb::new")
+        return
+    bad = []
+    for c in walk_k(fn.body, "MethodCall"):
+        if c.get("name") not in _CFB_REORDER:
+            continue
+        e = peel(c["recv"])
+        while isinstance(e, dict) and e.get("k") == "MethodCall":
+            e = peel(e["recv"])
+        pl = path_local(e) if isinstance(e, dict) and e.get("k") == "Path" else None
+        if pl and pl[1] in lids:
+            bad.append((c, lids[pl[1]]))
+    if bad:
+        rep.violation("R-CFBORDER", key, loc(bad[0][0]), "cfb::Cfb::new applies `%s` to `%s`: the sector tables are ordered by the DIFAT / the chains, not by position in the file, and free entries may sit between used ones -- reordering, de-duplicating or cutting them makes every later FAT lookup land in the wrong sector" % (bad[0][0]["name"], bad[0][1]))
+    else:
+        rep.holds("R-CFBORDER", key, loc(fn.raw), "difat / fats are appended to and walked in full (%d vectors watched)" % len(lids))
